@@ -180,3 +180,31 @@ def inline_new_helpers(raw, baseline=None):
                 _inline_one(b, bi, pristine[tgt])
                 done.append((b["path"], tgt))
     return done
+
+
+def expand_body(facts, body, want, depth=3):
+    """A copy of `body` in which every call whose resolved callee path satisfies `want(path)` (and has a body in the fact base) is replaced by
+    that body, repeatedly up to `depth` levels.  Used by rules that are about what a chain of thin wrappers finally does, not about how the
+    chain is cut into functions."""
+    from .mir import Body
+    raw = copy.deepcopy(body.raw)
+    by_path = {}
+    for b in facts.raw["bodies"]:
+        by_path.setdefault(b["path"], b)
+    for _ in range(depth):
+        sites = []
+        for bi, bb in enumerate(raw["blocks"]):
+            t = bb["term"]
+            if t.get("k") != "call" or bb.get("cleanup"):
+                continue
+            for cand in (t.get("res") if t.get("res_kind", "item") == "item" else None, t.get("callee")):
+                if cand and cand in by_path and cand != raw["path"] and want(cand):
+                    sites.append((bi, cand))
+                    break
+        if not sites or len(raw["blocks"]) > MAX_BLOCKS:
+            break
+        for bi, cand in sites:
+            _inline_one(raw, bi, copy.deepcopy(by_path[cand]))
+    nb = Body(raw, facts)
+    nb.key = getattr(body, "key", raw["path"])
+    return nb
